@@ -140,7 +140,13 @@ func whoCollect(r *engine.Run) {
 				}
 			}
 		})
-		nodeP := foreign.Params[1]
+		// the node parameter: the (only) parameter of interface type Node, wherever it stands
+		nodeP := foreign.Params[len(foreign.Params)-1]
+		for _, prm := range foreign.Params[1:] {
+			if isNamed(prm.Type(), pkgUtil, "Node") {
+				nodeP = prm
+			}
+		}
 		good := put != nil && add != nil && isInvokeOf(put.Call.Args[0], "GetHashBytes", isValue(nodeP)) && put.Call.Args[1] == ssa.Value(nodeP) &&
 			nilConst(add.Call.Args[0]) && add.Call.Args[1] == ssa.Value(nodeP)
 		if good {
@@ -641,6 +647,26 @@ func domRecorded(r *engine.Run, rule string) {
 					if st, ok := r2.(*ssa.Store); ok && st.Addr == ssa.Value(fa) && st.Val == ssa.Value(newP) && engine.InstrDominates(st, mu) {
 						newSet = true
 					}
+				}
+			}
+		}
+		// ... or the record comes from a constructor of the package whose result has New = the
+		// argument the new node is passed for
+		if c, ok := mu.Value.(*ssa.Call); ok && !newSet {
+			if g := c.Call.StaticCallee(); g != nil && g.Pkg == f.Pkg && len(g.Blocks) > 0 {
+				for i, a := range c.Call.Args {
+					if a != ssa.Value(newP) || i >= len(g.Params) {
+						continue
+					}
+					engine.Instrs(g, func(in2 ssa.Instruction) {
+						if st, ok := in2.(*ssa.Store); ok && st.Val == ssa.Value(g.Params[i]) {
+							if fa, ok := st.Addr.(*ssa.FieldAddr); ok && engine.FieldOf(fa).Name() == "New" {
+								if _, isAlloc := fa.X.(*ssa.Alloc); isAlloc {
+									newSet = true
+								}
+							}
+						}
+					})
 				}
 			}
 		}
